@@ -46,6 +46,19 @@ Theorem C16_only_documented_exceptions_refuted :
 Proof. exact only_documented_exceptions_refuted. Qed.
 Print Assumptions C16_only_documented_exceptions_refuted.
 
+(* "reflects file content no older than at the start of the call (under the freshness rule)" is refuted: a call that starts
+   after the file was rewritten, a whole second or more after another thread compiled it, is served that compilation by the
+   second look into the collection inside _load (known finding C16-F3; the harness replays this schedule on the real lookup) *)
+Theorem C16_fresh_at_call_start_refuted :
+  exists pre post t e f,
+    ~ In (Th 1) pre /\
+    let s := crun_conc true (conc_init 5000 [(1, {| cf_ver := 1; cf_mtime := 2; cf_ok := true |})] [] [(0, 1); (1, 1)] 0)
+                       (pre ++ [ETick 3000; EWrite 1 5 true] ++ post) in
+    nget 1 (cthreads s) = Some t /\ th_pc t = Done (COk e) /\ nget 1 (cfiles s) = Some f /\
+    t_ver e <> cf_ver f /\ t_ctime e + 1000 <= cf_mtime f * 1000.
+Proof. exact fresh_at_call_start_refuted. Qed.
+Print Assumptions C16_fresh_at_call_start_refuted.
+
 (* non-vacuity: two threads racing for a cold URI under a concrete interleaving *)
 Example C16_nonvacuous :
   let s := crun_conc true (conc_init 5000 [(1, {| cf_ver := 1; cf_mtime := 2; cf_ok := true |})] [] [(0, 1); (1, 1)] 0)
